@@ -15,7 +15,7 @@ CFG = {
             "sequences (print narrow/wide/zero-width/combining, C0, ESC, every CSI final of csi() + unknown ones, parameters omitted/0/1/2/"
             "size-1/size/size+1/65535/65536/2^31/2^63-1/negative (overflowed), sub-parameters, modes, SGR incl. malformed, OSC (fixed and generated payloads: known/unknown/empty selectors, 0-5 separators, empty fields, NUL, non-ASCII, long, invalid base64), APC, DCS through the REAL ansi.DCS arm (finals, intermediates, parameters, sixel data around the 4096 limit, oversized raster attributes and repeat counts), resizes; "
             "sizes 1x1..80x24), a slice of the C06 bounded-exhaustive vocabulary sequences (after setup prefixes, `adopt` lines), raw byte fuzz through the real ansi parser. C05Draw: Vaxis on a fake console filled with a marker, emulator drawn into windows partly off-screen / nested / of a different size; oracle: every changed host cell and the cursor lie inside the window. C05Events: the REAL PTY goroutine loop on a real child process "
-            "(VerifRunLoop) with 0-40 (thorough: up to 300) event-raising sequences. distinct = distinct op sequences.",
+            "(VerifRunLoop) with 0-40 (thorough: up to 300) event-raising sequences. Round 5: 300 / 3000 reply cases in the C05 stream (modes set/reset, text up to and over the right edge, CUP, then `rp <op>` lines for DA1, DA2, DSR 5/6/other, DECRQM of every mode of decrqm() and unknown ones): the implementation result is the bytes the emulator wrote to its pty (VerifTakeReplies), the model result is Model.EmuReply.replyOf on the regenerated translated body. distinct = distinct op sequences.",
     "trusted_base": ["uniseg grapheme widths are parameters of the model (passed in the op line by the harness, computed by the real library); "
                      "the safety theorems hold for EVERY width (parameters_needed) and the harness checks Width >= 0 on the real parser's output",
                      "base64 validity of an OSC 52 payload is passed in by the harness (OscInfo); safety holds for either verdict",
@@ -69,7 +69,7 @@ CFG = {
                   "clamps and LastColOk across a resize for every old state (resize_frame). Also tied by Gen/TermModes.lean (dispatch labels with their callee, mode tables, sgr labels, attribute bits, tab stops, "
                   "event channel, loop shape, DCS guards and size limit) and by the correspondence check (snapshot after every op, real DCS/OSC "
                   "payloads). Validated by correspondence only: nothing of the control functions' bodies (the dispatch skeleton goes through generated "
-                  "tables); the pinned primitives listed in the trusted base. Hypotheses checked at run time: Width >= 0, CSI parameters non-empty, sixel decoder tame within the size limit. Not judged (recorded in notes/C05.md, round 5): DSR 6 in the pending-wrap state reports column width+1 (a VT/xterm reports the last column) — outside C06's text (deferred-wrap state unconstrained; DSR not in its vocabulary) and unreachable in C12's start-up exchange (CSI H precedes the request); the reply bytes are tied by theorems (and, through replies_are_translated, to C12's reply model, which C12's stream compares with the real replies read back through VerifTakeReplies); the C05 stream itself does not compare them.",
+                  "tables); the pinned primitives listed in the trusted base. Hypotheses checked at run time: Width >= 0, CSI parameters non-empty, sixel decoder tame within the size limit. Not judged (recorded in notes/C05.md, round 5): DSR 6 in the pending-wrap state reports column width+1 (a VT/xterm reports the last column) — outside C06's text (deferred-wrap state unconstrained; DSR not in its vocabulary) and unreachable in C12's start-up exchange (CSI H precedes the request); the reply bytes are tied by theorems (and, through replies_are_translated, to C12's reply model, which C12's stream compares with the real replies read back through VerifTakeReplies); since the end of round 5 the C05 stream compares them too (`rp` lines: bytes read back from the emulator's pty vs replyOf on the translated body).",
     "technique": "Lean 4 proof (invariant + per-operation safety lemmas + induction over histories; LTS invariant for the event loop)",
     "timeout": 1500,
 }
